@@ -22,39 +22,75 @@ struct Pipeline {
     int N = 0; long dim = 0;
     int mode = PM_DEFAULT;
     int n_accepted_ioms = 0;
+    bool declare_first = lifecycle_mode() == 1;   // see vh.hpp
+    bool states_done = false, ham_done = false, dm_done = false, ops_done = false;
 
     // stage 1: lattice + indices + symbolic Hamiltonian
     void build_lattice(const ModelSpec& m) {
         spec = m;
+        if (declare_first) {      // every object exists before the lattice has a single site or term
+            IC.reset(new Pomerol::IndexClassification(L.getSiteMap()));
+            Storage.reset(new Pomerol::IndexHamiltonian(&L, *IC));
+            Symm.reset(new Pomerol::Symmetrizer(*IC, *Storage));
+            S.reset(new Pomerol::StatesClassification(*IC, *Symm));
+            H.reset(new Pomerol::Hamiltonian(*IC, *Storage, *S));
+            DM.reset(new Pomerol::DensityMatrix(*S, *H, m.beta));
+            Ops.reset(new Pomerol::FieldOperatorContainer(*IC, *S, *H));
+        }
         apply_model(m, L);
-        IC.reset(new Pomerol::IndexClassification(L.getSiteMap()));
+        if (!declare_first) IC.reset(new Pomerol::IndexClassification(L.getSiteMap()));
         IC->prepare(m.spin_major);
         N = (int)IC->getIndexSize(); dim = 1L << N;
+        if (!declare_first) Storage.reset(new Pomerol::IndexHamiltonian(&L, *IC));
+        Storage->prepare();
+    }
+    // a driver that changed the lattice after build_lattice() re-reads the symbolic Hamiltonian; objects declared early refer to the old one
+    void rebuild_storage() {
+        if (declare_first) { Ops.reset(); DM.reset(); H.reset(); S.reset(); Symm.reset(); }
         Storage.reset(new Pomerol::IndexHamiltonian(&L, *IC));
+        if (declare_first) {
+            Symm.reset(new Pomerol::Symmetrizer(*IC, *Storage));
+            S.reset(new Pomerol::StatesClassification(*IC, *Symm));
+            H.reset(new Pomerol::Hamiltonian(*IC, *Storage, *S));
+            DM.reset(new Pomerol::DensityMatrix(*S, *H, spec.beta));
+            Ops.reset(new Pomerol::FieldOperatorContainer(*IC, *S, *H));
+        }
         Storage->prepare();
     }
     // stage 2: symmetry analysis + state classification
     void build_states(int pmode, const std::vector<Pomerol::Operator>& ioms = std::vector<Pomerol::Operator>()) {
         mode = pmode;
-        Symm.reset(new Pomerol::Symmetrizer(*IC, *Storage));
+        if (!declare_first || states_done) {      // a second analysis on the same pipeline always gets fresh objects
+            Symm.reset(new Pomerol::Symmetrizer(*IC, *Storage));
+            if (declare_first) { S.reset(); H.reset(); DM.reset(); Ops.reset(); declare_first = false; }
+        }
         if (pmode == PM_CUSTOM) Symm->compute(ioms); else Symm->compute(pmode == PM_IGNORE);
         n_accepted_ioms = (int)Symm->getOperations().size();
-        S.reset(new Pomerol::StatesClassification(*IC, *Symm));
+        if (!declare_first) S.reset(new Pomerol::StatesClassification(*IC, *Symm));
         S->compute();
+        states_done = true;
     }
     // stage 3: Hamiltonian
     void build_hamiltonian(bool compute = true) {
-        H.reset(new Pomerol::Hamiltonian(*IC, *Storage, *S));
+        if (!declare_first || ham_done) { H.reset(new Pomerol::Hamiltonian(*IC, *Storage, *S)); if (declare_first) { DM.reset(); Ops.reset(); declare_first = false; } }
+        ham_done = true;
         H->prepare();
         if (compute) H->compute();
     }
     void build_hamiltonian(const boost::mpi::communicator& comm) {
-        H.reset(new Pomerol::Hamiltonian(*IC, *Storage, *S));
+        if (!declare_first || ham_done) { H.reset(new Pomerol::Hamiltonian(*IC, *Storage, *S)); if (declare_first) { DM.reset(); Ops.reset(); declare_first = false; } }
+        ham_done = true;
         H->prepare(comm);
         H->compute(comm);
     }
-    void build_dm(double beta) { DM.reset(new Pomerol::DensityMatrix(*S, *H, beta)); DM->prepare(); DM->compute(); }
-    void build_ops() { Ops.reset(new Pomerol::FieldOperatorContainer(*IC, *S, *H)); Ops->prepareAll(); Ops->computeAll(); }
+    void build_dm(double beta) {
+        if (!declare_first || dm_done || !DM || beta != spec.beta) DM.reset(new Pomerol::DensityMatrix(*S, *H, beta));
+        dm_done = true; DM->prepare(); DM->compute();
+    }
+    void build_ops() {
+        if (!declare_first || ops_done || !Ops) Ops.reset(new Pomerol::FieldOperatorContainer(*IC, *S, *H));
+        ops_done = true; Ops->prepareAll(); Ops->computeAll();
+    }
 
     void build_all(const ModelSpec& m, int pmode, const std::vector<Pomerol::Operator>& ioms = std::vector<Pomerol::Operator>()) {
         build_lattice(m); build_states(pmode, ioms); build_hamiltonian(true); build_dm(m.beta); build_ops();
